@@ -277,8 +277,10 @@ func genMapSession(r *rand.Rand, i int) J {
 			[]any{J{"t": "for", "tag": "for", "var": bs("p"), "coll": eVar("m"), "body": []any{nObj(eVar("p")), nText(";")}}},
 			[]any{nObj(eFilter(eFilter(eVar("m"), "reverse"), "first"))},
 		}
-		for _, ox := range ops {
-			delete(ox.(J), "shuffle") // (shuffled() rebuilds string-keyed maps only)
+		for k, ox := range ops {
+			if k%2 == 1 {
+				ox.(J)["shuffle"] = true // (shuffled() re-allocates the keys in another order)
+			}
 		}
 		delete(c, "anyorder")
 		return c
